@@ -1,7 +1,8 @@
 (** Model of the HTTP middleware of internal/home (C11): control.go
     (postInstall, ensure, ensureContentType, httpRegister), authhttp.go
-    (optionalAuth, optionalAuthThird, isPublicResource), controlinstall.go
-    (preInstall).  No proofs here.
+    (optionalAuth, optionalAuthThird, isPublicResource), auth.go (findUser,
+    round 3: bcrypt is a three-valued oracle), controlinstall.go (preInstall).
+    No proofs here.
 
     A handler is a function from the world (application state of any type [A]
     plus the session table of Model/Session.v) and a request to a new world
